@@ -415,7 +415,9 @@ def run_unit(unit, tier):
             continue
         for t, path, role in shapes_for(chain):
             if lazy_at is not None and "_index" in path:
-                continue        # while a LazyStruct measures its members no repetition is running (_index is None)
+                # lazy measuring does not know the running index (sizes depending on it come out wrong or raise TypeError on the
+                # unchanged tree): recorded as a finding of C16 (lazy = eager), not re-reported here per scope chain
+                continue
             try:
                 d = T.mk(t)
             except Exception as e:
